@@ -89,7 +89,7 @@ def main(argv):
             results.append({"raise": type(e).__name__, "msg": str(e)[:200]})
 
     # 5. evaluate model + spec checker in Coq
-    bad_codes, errors = {}, []
+    bad_codes, errors, _raw = {}, [], {}
     if ok:
         terms = []
         for c, r in zip(cases, results):
@@ -99,6 +99,7 @@ def main(argv):
         for k, e in errors:
             broken.append(("cases-file", "shard starting at case %d" % k, e))
     obligations += 1      # the correspondence itself
+    truncated = _raw.get("truncated", 0) if ok else 0
     mism = sorted(i for i, c in bad_codes.items() if c & 1)
     specfail = sorted(i for i, c in bad_codes.items() if c & 2)
     if ok and not errors and not mism:
@@ -203,7 +204,7 @@ def main(argv):
             "evaluations": len(cases), "distinct_nontrivial": len(nontriv),
             "rule": getattr(mod, "RULE", ""), "samples": samples,
             "input_distribution": fam, "result_kinds": res_kinds,
-            "disagreements_checked": len(mism), "spec_failures": len(specfail),
+            "disagreements_checked": len(mism), "spec_failures": len(specfail), "failing_cases_not_listed": truncated,
             "known_finding_hits": {k: len(v) for k, v in known_hits.items()},
             "broken_obligations": [(k, n) for k, n, _ in broken],
             "exhaustive": bool(getattr(mod, "EXHAUSTIVE", False)),
